@@ -67,9 +67,13 @@ func boolInput(id run.CaseID) (subj, clp Paths) {
 		if id.Family == "nested-small" { // closed pool: +-60..150, where unit differences and near-coincidences are frequent
 			R = gen.PickOf(r, 60.0, 150.0)
 		}
-		subj, _ = gen.Nested(r, 1+r.Intn(3), 6, R, r.Chance(0.7), r.Chance(0.3))
+		minRad := 12.0
+		if id.Family == "nested" { // fresh family: no ring smaller than 60 units (tiny rings behave like the small-coordinate pools)
+			minRad = 60
+		}
+		subj, _ = gen.NestedMin(r, 1+r.Intn(3), 6, R, r.Chance(0.7), r.Chance(0.3), minRad)
 		if r.Chance(0.6) {
-			clp, _ = gen.Nested(r, 1+r.Intn(2), 4, R*r.FloatRange(0.5, 1.2), r.Chance(0.7), false)
+			clp, _ = gen.NestedMin(r, 1+r.Intn(2), 4, R*r.FloatRange(0.5, 1.2), r.Chance(0.7), false, minRad)
 			clp = gen.Translate(clp, int64(r.FloatRange(-0.5, 0.5)*R), int64(r.FloatRange(-0.5, 0.5)*R))
 		}
 	case "degenerate", "degenerate-wide":
@@ -255,6 +259,22 @@ func discardedTriangles(rec *clip.VerifRecorder) []discardTri {
 				okShape = exactCol(ev.E1Top, ev.Pt, ev.E2Top) || asBuiltCol(ev.E1Top, ev.Pt, ev.E2Top)
 			}
 			if t.area > 4 && okShape {
+				out = append(out, t)
+			}
+			continue
+		}
+		if ev.Site == "selfint_micro" {
+			// "adjacent intersections (a micro self-intersection)": the ring is re-routed through a duplicate of the
+			// point after next; what changes lies in the hull of prev / op / next / next.next. Attributable only if the
+			// first documented precondition (prev-op properly crosses next-next.next) holds exactly.
+			prev, sp, nx, nn := ev.E1Bot, ev.Pt, ev.E1Top, ev.E2Top
+			if !oracle.SegsCrossProper(prev, sp, nx, nn) {
+				continue
+			}
+			q := [4][2]float64{{float64(prev.X), float64(prev.Y)}, {float64(sp.X), float64(sp.Y)}, {float64(nx.X), float64(nx.Y)}, {float64(nn.X), float64(nn.Y)}}
+			for _, ix := range [][3]int{{0, 1, 2}, {1, 2, 3}, {0, 1, 3}, {0, 2, 3}} {
+				t := discardTri{a: q[ix[0]], b: q[ix[1]], c: q[ix[2]]}
+				t.area = math.Abs((t.b[0]-t.a[0])*(t.c[1]-t.a[1])-(t.b[1]-t.a[1])*(t.c[0]-t.a[0])) / 2
 				out = append(out, t)
 			}
 			continue
